@@ -264,6 +264,7 @@ type histRec struct {
 	Mech     []string `json:"mech"`     // mechanism tags (for non-vacuity counts)
 	Viol     []viol   `json:"viol,omitempty"`
 	Hang     bool     `json:"hang,omitempty"`
+	HangOp   int      `json:"hang_op,omitempty"` // index of the op that was executing when the watchdog fired
 	Dump     string   `json:"dump,omitempty"`
 	Ms       int64    `json:"ms"`
 	OpMs     []int64  `json:"op_ms"`
@@ -283,6 +284,8 @@ type world struct {
 	killed     bool
 	badDirect  bool
 	directs    [2][]byte // direct-redistribution ops applied to r_i so far
+	fault      *discardFault
+	faulted    string // variant of a faulty Discard executed earlier in this history
 	rec        *histRec
 }
 
@@ -340,6 +343,9 @@ func (w *world) cond(i int) string {
 	}
 	if len(w.directs[i]) > 0 {
 		c = append(c, "after-direct-redistribution")
+	}
+	if w.faulted != "" && i == 0 {
+		c = append(c, "after-failed-discard-rpc")
 	}
 	if len(c) == 0 {
 		return "intact"
@@ -409,7 +415,7 @@ func (w *world) step(ctx context.Context, opi int) bool {
 	op := w.rec.Ops[opi]
 	mech := func(s string) { w.rec.Mech = append(w.rec.Mech, s) }
 	idx := 0
-	if len(op) > 1 {
+	if len(op) > 1 && op[0] != 'F' {
 		idx = int(op[1] - '0')
 	}
 	// outcome of the op, tagged with what happened to its operand before
@@ -581,6 +587,56 @@ func (w *world) step(ctx context.Context, opi int) bool {
 				mech("func/" + opNames[op[0]] + "/reused-ok-tasks")
 			}
 		}
+	case 'F':
+		// Discard(r0) during which the Worker.Discard RPC of one task fails: F<variant><n>
+		f := w.fault
+		f.mu.Lock()
+		f.armed, f.variant, f.n = true, op[1], int(op[2]-'0')
+		f.mu.Unlock()
+		dctx, cancel := ctx, func() {}
+		if op[1] == 'T' {
+			dctx, cancel = context.WithTimeout(ctx, 300*time.Millisecond)
+		}
+		w.res[0].Discard(dctx)
+		cancel()
+		f.mu.Lock()
+		f.armed = false
+		fired, victim := f.fired, f.victim
+		f.mu.Unlock()
+		w.discarded[0] = true
+		w.faulted = string(op[1])
+		if fired && op[1] != 'T' {
+			w.killed = true
+			// as for K: wait until the driver has noticed the loss of the machine
+			deadline := time.Now().Add(10 * time.Second)
+			for time.Now().Before(deadline) {
+				n := 0
+				for _, t := range exec.VerifC12Tasks(w.res[0]) {
+					if strings.TrimPrefix(t.Host, "http://") == victim && t.State == "OK" {
+						n++
+					}
+				}
+				if n == 0 && exec.VerifC12Machines(w.sess)["http://"+victim] == "STOPPED" {
+					break
+				}
+				time.Sleep(2 * time.Millisecond)
+			}
+		}
+		nOK, nRunning := 0, 0
+		for _, t := range exec.VerifC12Tasks(w.res[0]) {
+			switch t.State {
+			case "OK":
+				nOK++
+			case "RUNNING", "WAITING":
+				nRunning++
+			}
+		}
+		out(fmt.Sprintf("done(fired=%v,ok-after=%d,running-after=%d)", fired, nOK, nRunning))
+		if fired {
+			mech("faulty-discard/" + string(op[1]) + "/rpc-failed")
+		} else {
+			mech("faulty-discard/" + string(op[1]) + "/not-fired")
+		}
 	case 'X':
 		before := w.allOK(idx)
 		w.res[idx].Discard(ctx)
@@ -712,6 +768,75 @@ func (w *world) settle() {
 	}
 }
 
+// progress of the history being executed, for the watchdog's hang record
+var (
+	progMu       sync.Mutex
+	progOutcomes []string
+	progStates   []string
+	progOp       int
+)
+
+// discardFault makes the Worker.Discard RPC of ONE task fail (DESIGN E4 interposer):
+// the task is the n-th distinct task for which a Worker.Discard call arrives.
+//
+//	T  transport error on every attempt for that task, machine stays alive; the
+//	   Discard context (300 ms) expires while the RPC is being retried
+//	B  the machine dies before the request arrives
+//	A  the handler runs (output discarded), the reply is lost, the machine dies
+type discardFault struct {
+	mu      sync.Mutex
+	sys     *vsys.System
+	armed   bool
+	variant byte
+	n       int
+	order   map[string]int // task key -> order of first Worker.Discard call
+	fired   bool
+	victim  string
+}
+
+func (f *discardFault) target(c *vsys.Call) bool {
+	if c.Method != "Worker.Discard" {
+		return false
+	}
+	f.mu.Lock()
+	defer f.mu.Unlock()
+	if !f.armed {
+		return false
+	}
+	key := c.Label
+	if i := strings.LastIndexByte(key, '#'); i >= 0 {
+		key = key[:i]
+	}
+	if _, ok := f.order[key]; !ok {
+		f.order[key] = len(f.order) + 1
+	}
+	if f.order[key] != f.n {
+		return false
+	}
+	f.fired = true
+	f.victim = c.Host
+	return true
+}
+
+func (f *discardFault) hook(c *vsys.Call) error {
+	if !f.target(c) {
+		return nil
+	}
+	switch f.variant {
+	case 'T':
+		return fmt.Errorf("dial %s: injected transport error (c12)", c.Host)
+	case 'B':
+		f.sys.Kill(c.Host) // RoundTrip then refuses the connection
+	}
+	return nil
+}
+
+func (f *discardFault) after(c *vsys.Call, status int, body []byte) {
+	if f.variant == 'A' && f.target(c) {
+		f.sys.Kill(c.Host) // RoundTrip then reports a reset connection: reply lost
+	}
+}
+
 func runHistory(idx int, kind, prog string, ops []string) *histRec {
 	t0 := time.Now()
 	rec := &histRec{Idx: idx, Kind: kind, Prog: prog, Ops: ops}
@@ -725,11 +850,17 @@ func runHistory(idx int, kind, prog string, ops []string) *histRec {
 		// is what a Kill operation costs; 60 ms gives spurious machine losses when
 		// the host is busy (seen as "lost on 5 consecutive attempts" flakes).
 		w.sys.Keepalive = [3]time.Duration{20 * time.Millisecond, 200 * time.Millisecond, 100 * time.Millisecond}
+		w.fault = &discardFault{sys: w.sys, order: map[string]int{}}
+		w.sys.Hook = w.fault.hook
+		w.sys.After = w.fault.after
 		w.sess = exec.Start(exec.Bigmachine(w.sys), exec.Parallelism(4))
 	}
 	ctx := context.Background()
 	for i := range ops {
 		t1 := time.Now()
+		progMu.Lock()
+		progOp, progOutcomes, progStates = i, append([]string{}, rec.Outcomes...), append([]string{}, rec.States...)
+		progMu.Unlock()
 		cont := w.step(ctx, i)
 		rec.OpMs = append(rec.OpMs, time.Since(t1).Milliseconds())
 		rec.States = append(rec.States, w.state())
@@ -789,6 +920,9 @@ func childMain() {
 			buf := make([]byte, 1<<20)
 			buf = buf[:runtime.Stack(buf, true)]
 			rec := &histRec{Idx: idx, Kind: f[1], Prog: f[2], Ops: ops, Hang: true, Dump: trimDump(string(buf)), Ms: hangAfter.Milliseconds()}
+			progMu.Lock()
+			rec.HangOp, rec.Outcomes, rec.States = progOp, progOutcomes, progStates
+			progMu.Unlock()
 			enc.Encode(rec)
 			w.Flush()
 			os.Exit(3)
@@ -936,20 +1070,63 @@ func enumerateD(kind string, length int) [][]string {
 	return out
 }
 
-// runBatch executes jobs in child processes (a new child after a hang or crash)
-// and returns one record per job.
-func runBatch(self string, jobs []job) []*histRec {
+// ntasks is the number of tasks (= Worker.Discard calls) of a program's result.
+var ntasks = map[string]int{"s1": 1, "s2": 2, "s3": 3, "sh": 4}
+
+// enumerateF lists the histories of exactly the given length of space F (cluster
+// only): R, then F<v><n> = Discard(r0) during which the Worker.Discard RPC of the
+// n-th task fails in variant v (T, B, A; see discardFault), then a word over
+// P0 H0 S0 X0. Quick: all words of length 1 and the length-2 words P0 P0, X0 P0,
+// X0 S0, S0 P0; thorough: all words up to the depth.
+func enumerateF(prog string, length int, thorough bool) [][]string {
+	if length < 3 {
+		return nil
+	}
+	alpha := []string{"P0", "H0", "S0", "X0"}
+	var words [][]string
+	var rec func(h []string)
+	rec = func(h []string) {
+		if len(h) == length-2 {
+			words = append(words, append([]string{}, h...))
+			return
+		}
+		for _, o := range alpha {
+			rec(append(h, o))
+		}
+	}
+	if thorough || length == 3 {
+		rec(nil)
+	} else if length == 4 {
+		words = [][]string{{"P0", "P0"}, {"X0", "P0"}, {"X0", "S0"}, {"S0", "P0"}}
+	}
+	var out [][]string
+	for n := 1; n <= ntasks[prog]; n++ {
+		for _, v := range []string{"T", "B", "A"} {
+			for _, w := range words {
+				out = append(out, append([]string{"R", fmt.Sprintf("F%s%d", v, n)}, w...))
+			}
+		}
+	}
+	return out
+}
+
+// runBatch executes jobs in child processes, feeding one history at a time (a new
+// child after a hang or crash), and returns one record per executed job. If over is
+// non-nil and reports true, no further history is started.
+func runBatch(self string, jobs []job, over func() bool) []*histRec {
 	var recs []*histRec
 	crashed := map[int]int{}
 	for len(jobs) > 0 {
-		var stdin bytes.Buffer
-		for _, j := range jobs {
-			fmt.Fprintf(&stdin, "%d\t%s\t%s\t%s\n", j.idx, j.kind, j.prog, strings.Join(j.ops, ","))
+		if over != nil && over() {
+			return recs
 		}
 		cmd := osexec.Command(self, "-child")
-		cmd.Stdin = &stdin
 		var stderr bytes.Buffer
 		cmd.Stderr = &limitWriter{w: &stderr, n: 1 << 16}
+		stdin, err := cmd.StdinPipe()
+		if err != nil {
+			ev.Fatal("pipe: %v", err)
+		}
 		pipe, err := cmd.StdoutPipe()
 		if err != nil {
 			ev.Fatal("pipe: %v", err)
@@ -957,27 +1134,50 @@ func runBatch(self string, jobs []job) []*histRec {
 		if err := cmd.Start(); err != nil {
 			ev.Fatal("start child: %v", err)
 		}
-		got := 0
 		rd := bufio.NewReaderSize(pipe, 1<<20)
-		for {
-			line, err := rd.ReadBytes('\n')
-			if len(bytes.TrimSpace(line)) > 0 {
-				var rec histRec
-				if jerr := json.Unmarshal(line, &rec); jerr == nil && got < len(jobs) && rec.Idx == jobs[got].idx {
-					recs = append(recs, &rec)
-					got++
-				}
-			}
-			if err != nil {
+		got := 0
+		died := false
+		stopped := false
+		for got < len(jobs) {
+			if over != nil && over() {
+				stopped = true
 				break
 			}
+			j := jobs[got]
+			if _, err := fmt.Fprintf(stdin, "%d\t%s\t%s\t%s\n", j.idx, j.kind, j.prog, strings.Join(j.ops, ",")); err != nil {
+				died = true
+				break
+			}
+			var rec *histRec
+			for rec == nil {
+				line, err := rd.ReadBytes('\n')
+				if len(bytes.TrimSpace(line)) > 0 {
+					var r histRec
+					if jerr := json.Unmarshal(line, &r); jerr == nil && r.Idx == j.idx {
+						rec = &r
+					}
+				}
+				if err != nil {
+					break
+				}
+			}
+			if rec == nil {
+				died = true
+				break
+			}
+			recs = append(recs, rec)
+			got++
+			if rec.Hang {
+				break // the child exits after reporting a hang
+			}
 		}
+		stdin.Close()
+		io.Copy(io.Discard, rd)
 		werr := cmd.Wait()
-		if got == len(jobs) {
-			break
+		if stopped {
+			return recs
 		}
-		if got > 0 && recs[len(recs)-1].Hang {
-			// the child exited after reporting a hang; continue with the rest
+		if !died {
 			jobs = jobs[got:]
 			continue
 		}
@@ -1022,8 +1222,17 @@ func (l *limitWriter) Write(p []byte) (int, error) {
 func sigsOf(rec *histRec) []viol {
 	vs := rec.Viol
 	if rec.Hang {
-		vs = append(vs, viol{Sig: "C12/H/" + rec.Kind + "/history-hangs", What: fmt.Sprintf("a history did not finish within %v (normal: well under 1 s)", hangAfter),
-			Detail: map[string]interface{}{"executor": rec.Kind, "program": rec.Prog, "history": strings.Join(rec.Ops, " "), "goroutines": rec.Dump}})
+		sig := "history-hangs"
+		for i, op := range rec.Ops {
+			if op[0] == 'F' && i < rec.HangOp && rec.HangOp < len(rec.Ops) {
+				// never returns: an operation on a result after a Discard whose Worker.Discard RPC failed
+				kinds := map[byte]string{'P': "func-over-result", 'H': "func-over-result", 'S': "scan", 'X': "discard"}
+				sig = "op-after-failed-discard-rpc-hangs/" + map[byte]string{'T': "rpc-error+context-expired", 'B': "machine-died-before-request", 'A': "machine-died-after-handler"}[op[1]] + "/" + kinds[rec.Ops[rec.HangOp][0]]
+			}
+		}
+		vs = append(vs, viol{Sig: "C12/H/" + rec.Kind + "/" + sig, What: fmt.Sprintf("a history did not finish within %v (normal: well under 1 s)", hangAfter),
+			Detail: map[string]interface{}{"executor": rec.Kind, "program": rec.Prog, "history": strings.Join(rec.Ops, " "),
+				"executing_op_index": rec.HangOp, "outcomes_before": rec.Outcomes, "states_before": rec.States, "goroutines": rec.Dump}})
 	}
 	return vs
 }
@@ -1146,7 +1355,18 @@ func main() {
 	} else {
 		for l := 1; l <= depth; l++ {
 			for _, kind := range []string{"local", "vsys"} {
-				for _, space := range []string{"A", "B", "C", "D"} {
+				for _, space := range []string{"A", "B", "C", "D", "F"} {
+					if space == "F" {
+						// discard-under-fault histories: cluster only, depend on the program
+						if kind == "vsys" {
+							for _, prog := range progs {
+								for _, h := range enumerateF(prog, l, r.Thorough()) {
+									jobs = append(jobs, job{len(jobs), kind, prog, h, space})
+								}
+							}
+						}
+						continue
+					}
 					hs := enumerate(kind, l)
 					if space == "D" {
 						hs = enumerateD(kind, l)
@@ -1175,8 +1395,11 @@ func main() {
 		if jobs[i].kind == "local" {
 			n = 150
 		}
+		if jobs[i].space == "F" {
+			n = 6 // a history that hangs costs its child 60 s
+		}
 		j := i
-		for j < len(jobs) && j-i < n && jobs[j].kind == jobs[i].kind {
+		for j < len(jobs) && j-i < n && jobs[j].kind == jobs[i].kind && jobs[j].space == jobs[i].space {
 			j++
 		}
 		batches = append(batches, jobs[i:j])
@@ -1185,15 +1408,16 @@ func main() {
 	recs := make([]*histRec, len(jobs))
 	var skipped int64
 	var mu sync.Mutex
+	over := func() bool { return r.OverBudget(budget) }
 	ev.Parallel(len(batches), 20, func(b int) {
-		if r.OverBudget(budget) {
-			mu.Lock()
-			skipped += int64(len(batches[b]))
-			mu.Unlock()
-			return
-		}
-		for _, rec := range runBatch(self, batches[b]) {
+		rr := runBatch(self, batches[b], over)
+		for _, rec := range rr {
 			recs[rec.Idx] = rec
+		}
+		if len(rr) < len(batches[b]) {
+			mu.Lock()
+			skipped += int64(len(batches[b]) - len(rr))
+			mu.Unlock()
 		}
 	})
 	if skipped > 0 {
@@ -1249,11 +1473,12 @@ func main() {
 	// ---- confirm: a signature is reported only if one of its simplest histories
 	// shows it again in two more executions (3 of 3)
 	type confirm struct {
-		sig string
-		rec *histRec
-		ok  bool
-		n   int
-		v   viol
+		sig  string
+		rec  *histRec
+		ok   bool
+		n    int
+		twin string
+		v    viol
 	}
 	var conf []*confirm
 	for _, sig := range sigOrder {
@@ -1270,7 +1495,7 @@ func main() {
 		}
 		c.n = 1
 		for rep := 0; rep < 2; rep++ {
-			rr := runBatch(self, []job{{c.rec.Idx, c.rec.Kind, c.rec.Prog, c.rec.Ops, ""}})
+			rr := runBatch(self, []job{{c.rec.Idx, c.rec.Kind, c.rec.Prog, c.rec.Ops, ""}}, nil)
 			again := false
 			for _, rec := range rr {
 				for _, v := range sigsOf(rec) {
@@ -1284,6 +1509,23 @@ func main() {
 			}
 		}
 		c.ok = c.n == 3 || c.v.Safety
+		if c.ok && strings.Contains(c.sig, "op-after-failed-discard-rpc-hangs") {
+			// the same history with a fault-free Discard must complete, otherwise the
+			// hang is not a consequence of the failed RPC (spaces A-D report that case)
+			twin := append([]string{}, c.rec.Ops...)
+			for i, op := range twin {
+				if op[0] == 'F' {
+					twin[i] = "X0"
+				}
+			}
+			for _, rec := range runBatch(self, []job{{c.rec.Idx, c.rec.Kind, c.rec.Prog, twin, ""}}, nil) {
+				if rec.Hang || len(rec.Viol) > 0 {
+					c.ok = false
+				} else {
+					c.twin = fmt.Sprintf("%s completes in %d ms with outcomes %v", strings.Join(twin, " "), rec.Ms, rec.Outcomes)
+				}
+			}
+		}
 	})
 	confirmed := map[string]bool{}
 	unconfirmed := 0
@@ -1292,6 +1534,9 @@ func main() {
 			confirmed[c.sig] = true
 			c.v.Detail["reproduced"] = fmt.Sprintf("%d of 3 executions of this history in fresh processes", c.n)
 			c.v.Detail["histories_with_this_signature_first_pass"] = countSig(recs, c.sig)
+			if c.twin != "" {
+				c.v.Detail["same_history_with_fault_free_discard"] = c.twin
+			}
 			r.Violate(c.sig, c.v.What, c.v.Detail)
 		}
 	}
@@ -1313,7 +1558,7 @@ func main() {
 	}
 
 	// ---- samples: a few histories written out
-	for _, want := range []string{"local/s2 R X0 S0", "local/sh R X0 H0 S0", "vsys/s2 R K0 S0", "vsys/s2 R K0 P0 S0", "vsys/sh R X0 K1 H0", "local/s1 R R X0 P1", "vsys/s3 R A0 Q0", "vsys/s3 R Q0 X0 U0", "vsys/s2 R O0 P0"} {
+	for _, want := range []string{"local/s2 R X0 S0", "local/sh R X0 H0 S0", "vsys/s2 R K0 S0", "vsys/s2 R K0 P0 S0", "vsys/sh R X0 K1 H0", "local/s1 R R X0 P1", "vsys/s3 R A0 Q0", "vsys/s3 R Q0 X0 U0", "vsys/s2 R FB1 P0"} {
 		for _, rec := range recs {
 			if rec != nil && rec.Kind+"/"+rec.Prog+" "+strings.Join(rec.Ops, " ") == want {
 				r.Sample(map[string]interface{}{"executor": rec.Kind, "program": rec.Prog, "history": strings.Join(rec.Ops, " "),
@@ -1331,9 +1576,12 @@ func main() {
 			}
 		}
 	}
+	for _, prog := range progs {
+		depthTable["F/vsys/"+prog] = depth
+	}
 	layerH := map[string]interface{}{
 		"depth":                     depthTable,
-		"alphabet":                  "space A: R | S<i> P<i> H<i> X<i> for i in live results (max 2) | K0 K1 (cluster only).  space B: R then {D0 A0 B0 Q0 U0 X0 | K0 (cluster only)}* with at least one direct redistribution; D=Reduce, A=Reshard(r,2), B=Reshard(r,3), Q=Repartition(r, k mod n), U=Repartition(r, (2k+1) mod n), each applied DIRECTLY to the result.  space C: R then {J0 C0 Q0 X0 | K0 (cluster only)}* with at least one J0/C0; J=Cogroup(Reshard(r,2),Repartition(r,(2k+1) mod n)), C=Cogroup(Reduce(r,+), r), rows folded to (k, counts and sums of both groups).  space D: R, one of D0 A0 B0 O0 Q0 U0 J0 C0 (O=Reshard(r,1)), then {P0 H0 X0 O0 | K0 (cluster only)}* with at least one P0/H0",
+		"alphabet":                  "space A: R | S<i> P<i> H<i> X<i> for i in live results (max 2) | K0 K1 (cluster only).  space B: R then {D0 A0 B0 Q0 U0 X0 | K0 (cluster only)}* with at least one direct redistribution; D=Reduce, A=Reshard(r,2), B=Reshard(r,3), Q=Repartition(r, k mod n), U=Repartition(r, (2k+1) mod n), each applied DIRECTLY to the result.  space C: R then {J0 C0 Q0 X0 | K0 (cluster only)}* with at least one J0/C0; J=Cogroup(Reshard(r,2),Repartition(r,(2k+1) mod n)), C=Cogroup(Reduce(r,+), r), rows folded to (k, counts and sums of both groups).  space D: R, one of D0 A0 B0 O0 Q0 U0 J0 C0 (O=Reshard(r,1)), then {P0 H0 X0 O0 | K0 (cluster only)}* with at least one P0/H0.  space F (cluster only): R, F<T|B|A><n> (Discard with a failing Worker.Discard RPC), then words over {P0 H0 S0 X0}",
 		"programs":                  "s1/s2/s3: Const(1/2/3 shards, 5 rows)->Map; sh: Const(2)->Map->Reduce (result out of a shuffle)",
 		"histories_enumerated":      len(jobs),
 		"histories_executed":        executed,
@@ -1350,7 +1598,7 @@ func main() {
 		"signatures_first_pass":     len(sigOrder),
 		"signatures_not_confirmed":  unconfirmed,
 		"unconfirmed":               unconfDetail,
-		"rule":                      "four spaces of histories, each history replayed in a fresh session (state de-duplication is used for counting only). Space A = all histories over the general alphabet (no direct redistribution) up to the depth in the depth table; space B = all histories R·w, w over five DIFFERENT direct redistributions of r0 plus Discard and (cluster) Kill, containing at least one direct redistribution, up to the depth in the table, so that every ordered pair of direct re-shuffles of one result occurs, also with a Discard or Kill in between; space C = all histories R·w, w over {J0 C0 Q0 X0, K0 on the cluster} containing at least one J0 or C0, where J/C are ONE Func that sends the result into TWO shuffles (J: Cogroup(Reshard(r,2), Repartition(r,(2k+1) mod n)); C: Cogroup(Reduce(r,+), r)), same depths as space B; space D = all histories R·d·w, d one of the eight direct ops D A B O Q U J C (O = Reshard(r,1), a ONE-shard consumer; Q/U on program s1 are 1-shard Repartitions), w over {P0 H0 X0 O0, K0 on the cluster} containing at least one P0 or H0, same depths as space B (every direct op followed by the pipelined and the shuffling consumer, with and without Discard/Kill/1-shard Reshard in between). To keep the cluster part affordable (about 0.5 CPU-seconds per history) space A is one level less deep on the cluster for all programs (quick) / for s3 and sh (thorough), and spaces B, C, D one level less deep for the 1-shard program s1 and for sh (both tiers); direct redistributions are not mixed with P/H/second results. Cluster: verifsystem, 2 procs/machine, Parallelism(4), fast retries, keepalive 20/200/100 ms, ProbationTimeout 0.5 s, DoShuffleReaders=false; an error/hang signature is reported only when one of its simplest histories reproduces it 3 of 3 times, a wrong-rows signature on its first occurrence (re-executed, reproduction count recorded)",
+		"rule":                      "four spaces of histories, each history replayed in a fresh session (state de-duplication is used for counting only). Space A = all histories over the general alphabet (no direct redistribution) up to the depth in the depth table; space B = all histories R·w, w over five DIFFERENT direct redistributions of r0 plus Discard and (cluster) Kill, containing at least one direct redistribution, up to the depth in the table, so that every ordered pair of direct re-shuffles of one result occurs, also with a Discard or Kill in between; space C = all histories R·w, w over {J0 C0 Q0 X0, K0 on the cluster} containing at least one J0 or C0, where J/C are ONE Func that sends the result into TWO shuffles (J: Cogroup(Reshard(r,2), Repartition(r,(2k+1) mod n)); C: Cogroup(Reduce(r,+), r)), same depths as space B; space D = all histories R·d·w, d one of the eight direct ops D A B O Q U J C (O = Reshard(r,1), a ONE-shard consumer; Q/U on program s1 are 1-shard Repartitions), w over {P0 H0 X0 O0, K0 on the cluster} containing at least one P0 or H0, same depths as space B; space F (cluster only) = R, then F<v><n> = Discard(r0) during which the Worker.Discard RPC of the n-th task (n = 1..number of tasks of the result) FAILS in variant v (T: transport error on every attempt, machine alive, Discard context of 300 ms expires during the retries; B: machine dies before the request arrives; A: handler ran, reply lost, machine dies), then a word over {P0 H0 S0 X0}: quick all words of length 1 plus P0·P0, X0·P0, X0·S0, S0·P0, thorough all words up to the depth; the follow-ups must end with the model rows or (scans) an error, never hang (60 s watchdog per history, reported only if it hangs 3 of 3 times AND the same history with a fault-free Discard completes) (every direct op followed by the pipelined and the shuffling consumer, with and without Discard/Kill/1-shard Reshard in between). To keep the cluster part affordable (about 0.5 CPU-seconds per history) space A is one level less deep on the cluster for all programs (quick) / for s3 and sh (thorough), and spaces B, C, D one level less deep for the 1-shard program s1 and for sh (both tiers); direct redistributions are not mixed with P/H/second results. Cluster: verifsystem, 2 procs/machine, Parallelism(4), fast retries, keepalive 20/200/100 ms, ProbationTimeout 0.5 s, DoShuffleReaders=false; an error/hang signature is reported only when one of its simplest histories reproduces it 3 of 3 times, a wrong-rows signature on its first occurrence (re-executed, reproduction count recorded)",
 	}
 
 	// ---- layer S
